@@ -6,6 +6,7 @@ import (
 	"fmt"
 	"go/types"
 	"math"
+	"math/big"
 	"strings"
 
 	"golang.org/x/tools/go/ssa"
@@ -423,7 +424,96 @@ func symSqrt(c *smt.Ctx, x *smt.Term) *smt.Term {
 
 // sinCos returns the (sin, cos) pair of a symbolic angle term: fresh s, c with
 // s² + c² = 1 (axiom T1), memoised per angle term.
+// isPiConst: the float constant math.Pi
+func isPiConst(t *smt.Term) bool {
+	if !t.IsConst() {
+		return false
+	}
+	f, _ := t.Val.Float64()
+	return f == math.Pi
+}
+
+func isHalfConst(t *smt.Term) bool { return t.IsConst() && t.Val.Cmp(ratHalf) == 0 }
+
+// isSignTerm: an ite-tree over the constants -1, 0, 1 (the result of Sign())
+func isSignTerm(t *smt.Term) bool {
+	if t.IsConst() {
+		return t.Val.IsInt() && t.Val.Num().IsInt64() && t.Val.Num().Int64() >= -1 && t.Val.Num().Int64() <= 1
+	}
+	return t.Op == "ite" && isSignTerm(t.Args[1]) && isSignTerm(t.Args[2])
+}
+
+// symAcos (axiom T5): theta = acos(x) is a fresh angle in [0, pi] with cos = x, sin = sqrt(1 - x^2).
+func symAcos(c *smt.Ctx, x *smt.Term) *smt.Term {
+	name := fmt.Sprintf("acos!%d", x.ID)
+	if c.HasVar(name) {
+		return c.Var(name, smt.Real)
+	}
+	th := c.Var(name, smt.Real)
+	one := c.RealI(1)
+	c.OnDomain("acos", c.And(c.Ge(x, c.Neg(one)), c.Le(x, one)))
+	sn := symSqrt(c, c.Sub(one, c.Mul(x, x)))
+	c.Define(c.True(), c.And(c.Ge(th, c.RealI(0)), c.Le(th, c.RealF(math.Pi))))
+	c.TrigOf[th.ID] = smt.TrigPair{Angle: th, Sin: sn, Cos: x}
+	c.InZeroPi[th.ID] = true
+	return th
+}
+
+// sinCos returns the (sin, cos) of a symbolic angle term. Known structure is
+// used first (registered pairs; pi - A; A/2 for A in [0,pi] (half-angle
+// formulas, T5); sign * A; -A); otherwise a fresh unit pair s^2 + c^2 = 1 (T1)
+// with the quadrant sign facts (T2), memoised per angle term.
 func sinCos(c *smt.Ctx, a *smt.Term) (*smt.Term, *smt.Term) {
+	if tp, ok := c.TrigOf[a.ID]; ok {
+		return tp.Sin, tp.Cos
+	}
+	reg := func(s, co *smt.Term, zeroPi bool) (*smt.Term, *smt.Term) {
+		c.TrigOf[a.ID] = smt.TrigPair{Angle: a, Sin: s, Cos: co}
+		if zeroPi {
+			c.InZeroPi[a.ID] = true
+		}
+		return s, co
+	}
+	switch a.Op {
+	case "neg":
+		s, co := sinCos(c, a.Args[0])
+		return reg(c.Neg(s), co, false)
+	case "-", "+":
+		// pi - A   (printed as (+ pi (neg A)) after normalisation, or (- pi A))
+		var x *smt.Term
+		if a.Op == "-" && isPiConst(a.Args[0]) {
+			x = a.Args[1]
+		} else if a.Op == "+" && isPiConst(a.Args[0]) && a.Args[1].Op == "neg" {
+			x = a.Args[1].Args[0]
+		} else if a.Op == "+" && isPiConst(a.Args[1]) && a.Args[0].Op == "neg" {
+			x = a.Args[0].Args[0]
+		}
+		if x != nil {
+			if _, known := c.TrigOf[x.ID]; known || c.InZeroPi[x.ID] {
+				s, co := sinCos(c, x)
+				return reg(s, c.Neg(co), c.InZeroPi[x.ID])
+			}
+		}
+	case "*":
+		for i := 0; i < 2; i++ {
+			k, x := a.Args[i], a.Args[1-i]
+			if isHalfConst(k) && c.InZeroPi[x.ID] {
+				// half-angle: both non-negative on [0, pi/2]
+				_, cx := sinCos(c, x)
+				one, two := c.RealI(1), c.RealI(2)
+				sh := symSqrt(c, c.Div(c.Sub(one, cx), two))
+				ch := symSqrt(c, c.Div(c.Add(one, cx), two))
+				return reg(sh, ch, true)
+			}
+			if isOneConst(k) {
+				return sinCos(c, x)
+			}
+			if !k.IsConst() && isSignTerm(k) {
+				s, co := sinCos(c, x)
+				return reg(c.Mul(k, s), c.Ite(c.Eq(k, c.RealI(0)), c.RealI(1), co), false)
+			}
+		}
+	}
 	ns, nc := fmt.Sprintf("sin!%d", a.ID), fmt.Sprintf("cos!%d", a.ID)
 	fresh := !c.HasVar(ns)
 	s, co := c.Var(ns, smt.Real), c.Var(nc, smt.Real)
@@ -441,7 +531,6 @@ func sinCos(c *smt.Ctx, a *smt.Term) (*smt.Term, *smt.Term) {
 		c.Define(in(c.Neg(half), zero), c.And(c.Le(s, zero), c.Ge(co, zero)))
 		c.Define(in(c.Neg(pi), c.Neg(half)), c.And(c.Le(s, zero), c.Le(co, zero)))
 		c.Define(c.Eq(a, zero), c.And(c.Eq(s, zero), c.Eq(co, c.RealI(1))))
-		// strictness inside the open quadrants
 		c.Define(c.And(c.Gt(a, zero), c.Lt(a, pi)), c.Gt(s, zero))
 		c.Define(c.And(c.Gt(a, pi), c.Lt(a, two)), c.Lt(s, zero))
 		c.Define(c.And(c.Gt(a, c.Neg(half)), c.Lt(a, half)), c.Gt(co, zero))
@@ -449,6 +538,8 @@ func sinCos(c *smt.Ctx, a *smt.Term) (*smt.Term, *smt.Term) {
 	}
 	return s, co
 }
+
+func isOneConst(t *smt.Term) bool { return t.IsConst() && t.Val.Cmp(big.NewRat(1, 1)) == 0 }
 
 // symAtan2 (axiom T3, restricted): for y = rho*sin(A), x = rho*cos(A) with the
 // same angle term A (the pair introduced by math.Sin/Cos), rho > 0 and
@@ -537,7 +628,7 @@ func init() {
 			return c.Div(s, co)
 		}),
 		"math.Atan":  math1("Atan", math.Atan, nil),
-		"math.Acos":  math1("Acos", math.Acos, nil),
+		"math.Acos":  math1("Acos", math.Acos, symAcos),
 		"math.Asin":  math1("Asin", math.Asin, nil),
 		"math.Exp":   math1("Exp", math.Exp, nil),
 		"math.Log":   math1("Log", math.Log, nil),
